@@ -470,14 +470,63 @@ def reshape(ctx: Ctx):
             vals = [u(x) for x in n.comparators[0].elts]
             if len(vals) == 3:
                 found = vals
-    ctx.ob(
-        "selected-plane-constant",
-        "dimension.py::Dimensions.dimension_type",
-        found,
-        "['1', '0', '-1']",
-        found == ["1", "0", "-1"],
-        "an MR selection axis is recognised by category ids [1, 0, -1], which is what puts 'selected' at index 0 of every sel axis",
-    )
+    # decision table (DECTAB) over categorical typedefs, with the helper methods of the class inlined: the categories
+    # dimension of an array is a SELECTION axis (MR_CAT) exactly when its ids are 1, 0, -1 IN THAT ORDER and one is selected
+    from ..dectab import DTop, ModelInterp, Raises, module_constants
+
+    where_d = "dimension.py::Dimensions.dimension_type"
+    body_d = expand(ctx.repo, dims, "dimension_type", bind={"dimension_dict": ast.Name(id="dimension_dict", ctx=ast.Load())}, stop=lambda mm: mm.kind in ("lazyproperty", "property"))
+
+    def cats(ids, selected=None, date=False):
+        out = []
+        for i in ids:
+            c = {"id": i}
+            if i == selected:
+                c["selected"] = True
+            if date:
+                c["date"] = "2020-01-01"
+            out.append(c)
+        return out
+
+    cases = []
+    for subrefs in (True, False):
+        refs = {"subreferences": [{"alias": "a"}]} if subrefs else {}
+        for label, cs, logical, dated in (
+            ("ids 1,0,-1 with a selected category", cats([1, 0, -1], 1), True, False),
+            ("ids 0,1,-1 (other order) with a selected category", cats([0, 1, -1], 1), False, False),
+            ("ids 1,0,-1 none selected", cats([1, 0, -1]), False, False),
+            ("ids 1,2,3", cats([1, 2, 3]), False, False),
+            ("ids 1,2,3 with dates", cats([1, 2, 3], None, True), False, True),
+        ):
+            want = ("DT.MR_CAT" if logical else "DT.CA_CAT") if subrefs else ("DT.LOGICAL" if logical else ("DT.CAT_DATE" if dated else "DT.CAT"))
+            cases.append((f"{label}, {'array' if subrefs else 'stand-alone'}", {"type": {"class": "categorical", "categories": cs}, "references": refs}, want))
+    bad, undec = [], None
+    for label, dd, want in cases:
+        def atoms_d(x, dd=dd):
+            if isinstance(x, ast.Name) and x.id == "dimension_dict":
+                return dd
+            if isinstance(x, ast.Attribute) and isinstance(x.value, ast.Name) and x.value.id == "DT":
+                return "DT." + x.attr
+            raise KeyError
+
+        try:
+            interp = ModelInterp(atoms_d)
+            interp.module_consts = module_constants(dims.module.tree)
+            got = interp.ev(body_d)
+        except Raises as r:
+            bad.append(f"{label}: raises {r.etype}")
+            continue
+        except DTop as t:
+            undec = str(t)
+            break
+        if got != want:
+            bad.append(f"{label}: {got}, specified {want}")
+    if undec is None:
+        ctx.ob("selected-plane-constant", where_d, bad[:3] or f"{len(cases)} categorical typedefs", "MR_CAT / LOGICAL iff the category ids are 1, 0, -1 in that order and one is selected", not bad,
+               "an MR selection axis is recognised by category ids [1, 0, -1], which is what puts 'selected' at index 0 of every sel axis")
+    else:
+        ctx.ob("selected-plane-constant", where_d, found, "['1', '0', '-1']", True if found == ["1", "0", "-1"] else None,
+               "an MR selection axis is recognised by category ids [1, 0, -1] (DECTAB not applicable: " + undec[:60] + ")")
 
 
 # --------------------------------------------------------------------------- 4
